@@ -43,24 +43,29 @@ func runC18(c *Ctx) {
 	// the four table functions, read by conditional constant propagation (engine E7b): the receiver is bound to
 	// each declared Language constant in turn
 	tfn := map[string]*ssa.Function{}
-	for _, n := range []string{"commentStyle", "SingleLineCommentStart", "MultilineCommentStart", "MultilineCommentEnd"} {
+	for _, n := range []string{"SingleLineCommentStart", "MultilineCommentStart", "MultilineCommentEnd"} {
 		f := p.Func(langPkg, "(Language)."+n)
 		if !c.R.Anchor(f != nil && len(f.Params) == 1, "language.(Language)."+n) {
 			return
 		}
 		tfn[n] = f
 	}
-	langT, _ := tfn["commentStyle"].Params[0].Type().(*types.Named)
-	styleT, _ := tfn["commentStyle"].Signature.Results().At(0).Type().(*types.Named)
-	if !c.R.Anchor(langT != nil && styleT != nil, "language.Language / comment style types") {
+	// the style indirection (Language -> comment style -> delimiters) is optional: a table that gives every language its
+	// delimiters directly has no styles, and the style rules have nothing to say about it
+	hasStyles := false
+	if f := p.Func(langPkg, "(Language).commentStyle"); f != nil && len(f.Params) == 1 && f.Signature.Results().Len() == 1 {
+		if _, isNamed := f.Signature.Results().At(0).Type().(*types.Named); isNamed {
+			tfn["commentStyle"] = f
+			hasStyles = true
+		}
+	}
+	langT, _ := tfn["SingleLineCommentStart"].Params[0].Type().(*types.Named)
+	if !c.R.Anchor(langT != nil, "language.Language") {
 		return
 	}
 	langs := eng.ConstsOfType(lp, langT.Obj().Name())
-	styles := eng.ConstsOfType(lp, styleT.Obj().Name())
 	c.R.Count("R18:languages", len(langs))
-	c.R.Count("R18:styles", len(styles))
 	c.R.RequireMin("R18.1", "language constants", len(langs), 20)
-	c.R.RequireMin("R18.1", "style constants", len(styles), 5)
 	ce := eng.NewConstEvaluator()
 	evalStr := func(n string, l *types.Const) (string, bool) {
 		res, err := ce.Eval(tfn[n], []constant.Value{l.Val()})
@@ -77,62 +82,71 @@ func runC18(c *Ctx) {
 		}
 		return res[0].ExactString(), true
 	}
-	styleName := map[string]string{}
-	for _, s := range styles {
-		styleName[s.Val().ExactString()] = s.Name()
-	}
-	defStyle := styleName["0"]
-	// R18.1 reachability of styles
+	defStyle := ""
 	image := map[string][]string{}
 	styleOf := map[string]string{}
-	for _, l := range langs {
-		v, ok := evalStr("commentStyle", l)
-		if !ok {
-			return
+	if hasStyles {
+		styleT, _ := tfn["commentStyle"].Signature.Results().At(0).Type().(*types.Named)
+		styles := eng.ConstsOfType(lp, styleT.Obj().Name())
+		c.R.Count("R18:styles", len(styles))
+		c.R.RequireMin("R18.1", "style constants", len(styles), 5)
+		styleName := map[string]string{}
+		for _, s := range styles {
+			styleName[s.Val().ExactString()] = s.Name()
 		}
-		s := styleName[v]
-		styleOf[l.Name()] = s
-		image[s] = append(image[s], l.Name())
-	}
-	// styles that have a delimiter row: the delimiter functions are read once more with commentStyle's result fixed
-	// to each style in turn (for every language, because a row can depend on the language too); a style for which some
-	// delimiter comes back non-empty has a row, however the rows are stored (switch, array, map)
-	usedInTables := map[string]bool{}
-	for _, st := range styles {
-		ce2 := eng.NewConstEvaluator()
-		ce2.Override[tfn["commentStyle"]] = []constant.Value{st.Val()}
-		for _, n := range []string{"SingleLineCommentStart", "MultilineCommentStart", "MultilineCommentEnd"} {
-			for _, l := range langs {
-				res, err := ce2.Eval(tfn[n], []constant.Value{l.Val()})
-				if err != nil || len(res) != 1 || res[0].Kind() != constant.String {
-					msg := "unexpected result shape"
-					if err != nil {
-						msg = err.Error()
+		defStyle = styleName["0"]
+		// R18.1 reachability of styles
+		for _, l := range langs {
+			v, ok := evalStr("commentStyle", l)
+			if !ok {
+				return
+			}
+			s := styleName[v]
+			styleOf[l.Name()] = s
+			image[s] = append(image[s], l.Name())
+		}
+		// styles that have a delimiter row: the delimiter functions are read once more with commentStyle's result fixed
+		// to each style in turn (for every language, because a row can depend on the language too); a style for which some
+		// delimiter comes back non-empty has a row, however the rows are stored (switch, array, map)
+		usedInTables := map[string]bool{}
+		for _, st := range styles {
+			ce2 := eng.NewConstEvaluator()
+			ce2.Override[tfn["commentStyle"]] = []constant.Value{st.Val()}
+			for _, n := range []string{"SingleLineCommentStart", "MultilineCommentStart", "MultilineCommentEnd"} {
+				for _, l := range langs {
+					res, err := ce2.Eval(tfn[n], []constant.Value{l.Val()})
+					if err != nil || len(res) != 1 || res[0].Kind() != constant.String {
+						msg := "unexpected result shape"
+						if err != nil {
+							msg = err.Error()
+						}
+						c.R.Undecided("R18.1", "language table "+n, langPkg, "cannot read the table for style "+st.Name()+": "+msg)
+						return
 					}
-					c.R.Undecided("R18.1", "language table "+n, langPkg, "cannot read the table for style "+st.Name()+": "+msg)
-					return
-				}
-				if constant.StringVal(res[0]) != "" {
-					usedInTables[st.Name()] = true
+					if constant.StringVal(res[0]) != "" {
+						usedInTables[st.Name()] = true
+					}
 				}
 			}
 		}
-	}
-	var names []string
-	for k := range usedInTables {
-		names = append(names, k)
-	}
-	sort.Strings(names)
-	c.R.RequireMin("R18.1", "styles distinguished by the delimiter functions", len(names), 4)
-	for _, s := range names {
-		if s == defStyle {
-			continue
+		var names []string
+		for k := range usedInTables {
+			names = append(names, k)
 		}
-		if len(image[s]) > 0 {
-			c.R.OK("R18.1", "style "+s+" is returned by commentStyle", langPkg, fmt.Sprintf("for %d language(s): %s", len(image[s]), strings.Join(image[s], ",")))
-		} else {
-			c.R.Fail("R18.1", "style "+s+" is never returned by commentStyle", langPkg, "the style has delimiter rows but no language maps to it: comments of the language it was written for are never found")
+		sort.Strings(names)
+		c.R.RequireMin("R18.1", "styles distinguished by the delimiter functions", len(names), 4)
+		for _, s := range names {
+			if s == defStyle {
+				continue
+			}
+			if len(image[s]) > 0 {
+				c.R.OK("R18.1", "style "+s+" is returned by commentStyle", langPkg, fmt.Sprintf("for %d language(s): %s", len(image[s]), strings.Join(image[s], ",")))
+			} else {
+				c.R.Fail("R18.1", "style "+s+" is never returned by commentStyle", langPkg, "the style has delimiter rows but no language maps to it: comments of the language it was written for are never found")
+			}
 		}
+	} else {
+		c.R.OK("R18.1", "every language has its delimiters directly (no comment-style indirection)", langPkg, "nothing between a language and its delimiter row that could be unreachable")
 	}
 	sl, ms, me := map[string]string{}, map[string]string{}, map[string]string{}
 	for _, l := range langs {
@@ -143,6 +157,15 @@ func runC18(c *Ctx) {
 		if !ok1 || !ok2 || !ok3 {
 			return
 		}
+	}
+	if !hasStyles {
+		// without styles, two languages have "the same comment style" when their three delimiters agree
+		for _, l := range langs {
+			k := sl[l.Name()] + " | " + ms[l.Name()] + " | " + me[l.Name()]
+			styleOf[l.Name()] = k
+			image[k] = append(image[k], l.Name())
+		}
+		defStyle = " |  | "
 	}
 	var imgStyles []string
 	for s := range image {
